@@ -21,6 +21,9 @@ RULE = (
     "register, EPR keep/measure/context operations with and without the Phi+ expectation, loops with registers named by the application) on one connection, one kind repeated or mixed, flush after every k-th "
     "(k drawn 1..10), nesting up to depth 4, plus fixed programs of 8..13 nested loops; oracle: every operation compiles and flushes (no register exhaustion), the "
     "C05 differential oracle holds, and the builder's active-register set is empty whenever no operation is open.  "
+    "Measurement windows: 2..8 (thorough ..20) flush windows on one connection, each with 0..16 outcomes kept in registers (store_array=False, "
+    "an explicit RegFuture, in-place) and array-stored outcomes in between, the first window being the connection's first subroutine (or after an "
+    "initial flush); oracle: every window compiles and flushes, outcomes live together sit in different M registers, every outcome reads the value the device reported.  "
     "Non-trivial = >=17 completed operations of one kind on one connection; distinct by history hash"
 )
 ASSUMPTIONS = [
@@ -206,6 +209,104 @@ def check_epr(case) -> Dict[str, Any]:
     return {"done": done}
 
 
+MEAS_KINDS = ["reg", "regfut", "reg_inplace", "arr", "implicit"]
+N_MREGS = 16  # size of the M bank (register index is 4 bits); an independent constant of the instruction set
+
+
+@st.composite
+def st_meas_windows(draw, max_windows=8):
+    """flush windows of measurements whose outcomes stay in registers until the flush (at most 16 live at once, the size of
+    the M bank), the first window being the connection's first subroutine; array-stored outcomes (which need one free
+    M register for a moment) in between"""
+    n_win = draw(st.integers(2, max_windows))
+    windows = []
+    total = 0
+    for _w in range(n_win):
+        target = draw(st.one_of(st.integers(0, N_MREGS), st.sampled_from([1, 7, 8, 9, 12, 15, 16, 16])))
+        p_arr = draw(st.sampled_from([0, 0, 1, 3]))  # how often an array-stored outcome is interleaved (x/10)
+        items = []
+        regs = 0
+        while regs < target:
+            if p_arr and regs < N_MREGS and draw(st.integers(0, 9)) < p_arr:
+                items.append([draw(st.sampled_from(["arr", "implicit"])), draw(st.booleans())])
+                continue
+            items.append([draw(st.sampled_from(["reg", "reg", "regfut", "reg_inplace"])), draw(st.booleans())])
+            regs += 1
+        if regs < N_MREGS and draw(st.booleans()):
+            items.append([draw(st.sampled_from(["arr", "implicit"])), draw(st.booleans())])
+        windows.append(items)
+        total += len(items)
+    outcomes = draw(st.lists(st.integers(0, 1), min_size=total, max_size=total))
+    return {"meas_windows": windows, "outcomes": outcomes, "first_after_flush": draw(st.sampled_from([False, False, False, True]))}
+
+
+def check_meas_windows(case) -> Dict[str, Any]:
+    """every window compiles and flushes whatever was measured and flushed before; outcomes that are live together sit in
+    different registers; every outcome read after its flush is the one the device reported"""
+    from netqasm.sdk.futures import RegFuture
+    from netqasm.sdk.qubit import Qubit
+    from vlib import sim
+
+    ctrl, conn = sim.fresh(sim.TraceExecutor, max_qubits=5)
+    ctrl._executor.outcomes = list(case["outcomes"])
+    expected = list(case["outcomes"])
+    mm = getattr(conn.builder, "_mem_mgr", None)
+    out = conn.new_array(1)
+    if case.get("first_after_flush"):
+        conn.flush()
+    n_meas = 0
+    regs_total = 0
+    for w, items in enumerate(case["meas_windows"]):
+        handles = []
+        live = []
+        for j, (kind, had) in enumerate(items):
+            try:
+                q = Qubit(conn)
+                if had:
+                    q.H()
+                if kind == "reg":
+                    h = q.measure(store_array=False)
+                elif kind == "regfut":
+                    h = q.measure(future=RegFuture(conn))
+                elif kind == "reg_inplace":
+                    h = q.measure(inplace=True, store_array=False)
+                    q.free()
+                elif kind == "arr":
+                    h = q.measure(future=out.get_future_index(0))
+                else:
+                    h = q.measure()
+            except Exception as e:
+                msg = (str(e).splitlines() or [""])[0][:200]
+                sig = "register-exhaustion:meas-window" if ("M-registers" in msg or "could not find an available" in msg or "no registers left" in msg) else f"meas-window-raises:{type(e).__name__}"
+                raise Failure(sig, case, f"window {w} (windows before it were flushed; register outcomes in them: {[sum(1 for k, _ in x if k.startswith('reg')) for x in case['meas_windows'][:w]]}): measurement {j} ({kind}) with {len(live)} register outcomes live in this window did not compile: {type(e).__name__}: {msg}")
+            if kind.startswith("reg"):
+                r = str(h.reg)
+                if r in live:
+                    raise Failure("meas-window:live-outcomes-share-register", case, f"window {w}: measurement {j} ({kind}) got register {r}, which holds a live outcome of this window ({live})")
+                live.append(r)
+                regs_total += 1
+            handles.append((kind, h, expected[n_meas]))
+            n_meas += 1
+        try:
+            conn.flush()
+        except Exception as e:
+            raise Failure(f"meas-window-raises:flush:{type(e).__name__}", case, f"flush of window {w}: {type(e).__name__}: {(str(e).splitlines() or [''])[0][:200]}")
+        # `arr` outcomes share one entry: only the last one of a window can be read back; the others are checked through the device log
+        last_arr = max([i for i, (k, _h, _e) in enumerate(handles) if k == "arr"], default=None)
+        for i, (kind, h, exp) in enumerate(handles):
+            if kind == "arr" and i != last_arr:
+                continue
+            got = h.value if kind in ("arr", "implicit") else int(h)
+            if got != exp:
+                raise Failure("meas-window:outcome-value", case, f"window {w}: outcome {i} ({kind}) reads {got!r} after the flush, the device reported {exp}")
+        act = getattr(mm, "_active_registers", None)
+        if act:
+            raise Failure("active-registers-leak:meas-window", case, f"after flushed window {w} the builder still has active registers {sorted(map(str, act))}")
+    if ctrl._executor.outcome_log != expected[:n_meas]:
+        raise Failure("meas-window:device-log", case, f"the device performed {len(ctrl._executor.outcome_log)} measurements, the program made {n_meas}")
+    return {"measurements": n_meas, "regs_total": regs_total}
+
+
 def deep_program(d: int, style: str) -> Dict[str, Any]:
     """d nested loops (1..2 iterations each) with additions at several levels: one live counter per open loop plus temporaries"""
     body: List[Any] = [["add", ["elem", 0, 0], 1, None]]
@@ -235,6 +336,22 @@ def shard(ctx: Ctx) -> None:
         stt.case(case, nt, ["epr-history", f"mode:{meta['mode']}", case["hardware"]] + ([f"kind:{meta['kind']}"] if meta["mode"] == "one-kind" else []), sample={"meta": meta, "first": case["epr_ops"][:4]})
 
     ctx.search(st_epr_history(60 if ctx.tier == "quick" else 200), body_epr, n_epr, name="c14-epr", salt=5)
+    n_mw = 16 if ctx.tier == "quick" else 300
+
+    def body_mw(case):
+        info = check_meas_windows(case)
+        sizes = [sum(1 for k, _ in w if k.startswith("reg")) for w in case["meas_windows"]]
+        labels = ["meas-windows", f"windows:{len(sizes)}"]
+        if sizes[0] > 0 and not case["first_after_flush"]:
+            labels.append("meas-windows:register-outcomes-in-first-subroutine")
+        if any(x == N_MREGS for x in sizes):
+            labels.append("meas-windows:all-16-live")
+        if any(a > 0 and b >= 9 for a, b in zip(sizes, sizes[1:])):
+            labels.append("meas-windows:>=9-after-nonempty")
+        stt.labels["operations-total"] += info["measurements"]
+        stt.case(case, info["regs_total"] >= 17, labels, sample={"register_outcomes_per_window": sizes, "first_after_flush": case["first_after_flush"]})
+
+    ctx.search(st_meas_windows(8 if ctx.tier == "quick" else 20), body_mw, n_mw, name="c14-meas-windows", salt=9)
     n = 30 if ctx.tier == "quick" else 600
     max_ops = 120 if ctx.tier == "quick" else 400
 
@@ -266,6 +383,9 @@ def replay(case):
     try:
         if "epr_ops" in case:
             check_epr(case)
+            return None
+        if "meas_windows" in case:
+            check_meas_windows(case)
             return None
         check(case)
     except hp.OutOfDomainProgram:
